@@ -238,7 +238,8 @@ def _worker_bfs(args):
                 outcomes['VIOLATION'] += 1
                 continue
             outcomes[outcome] += 1
-            out.append((key, expandable, h2))
+            # canonical keys can be large (whole models / stacks): the parent deduplicates on a 128-bit digest of them
+            out.append((hashlib.blake2b(repr(key).encode(), digest_size=16).digest(), expandable, h2))
     return {'fam': fam_idx, 'out': out, 'viols': viols[:40], 'nviol': len(viols), 'outcomes': dict(outcomes),
             'ntrans': ntrans}
 
